@@ -6,7 +6,7 @@ from harness import sx
 N_QUICK, N_THOROUGH = 1200, 40000
 RULE = ("kind=hist (70%): histograms of every class (Histogram1D/2D/ND 3-4 axes, Radial, Azimuthal, Polar, SphericalSurface, "
         "Spherical, Cylindrical) x binning type per axis (Static incl. gapped and integer edges, Numpy, FixedWidth incl. adaptive "
-        "and empty, Exponential) x dtype (int16/32/64, float16/32/64; float128 as a separate stream) x keep_missed x missed counts "
+        "and empty, Exponential) x dtype (int16/32/64, float16/32/64; float128 as a separate stream; 4%: int8 / uint8..64, judged on dtype names and values only) x keep_missed x missed counts "
         "(zero, non-zero, NaN markers) x errors2 (equal to contents, different, within 1e-9 of contents) x metadata (name, title, "
         "axis names incl. None, nested custom JSON values, radius) built directly from constructors, or through the facade "
         "(h1/h2/h3/special, every binning method name) followed by fills of adaptive histograms / scaling / merges; values are "
@@ -238,6 +238,14 @@ def gen_version(rng):
 def gen(rng, n, tier):
     for i in range(n):
         r = rng.random()
+        if rng.random() < 0.04:
+            # legal content dtypes outside the modelled enumeration: int8 and the unsigned integers (errors2 = contents)
+            dt = rng.choice(["int8", "uint8", "uint16", "uint32", "uint64"])
+            top = {"int8": 127, "uint8": 255, "uint16": 65535, "uint32": 2 ** 32 - 1, "uint64": 2 ** 63 - 1}[dt]
+            nd = rng.choice([1, 1, 2]); nb = rng.randint(1, 4) * (2 if nd == 2 else 1)
+            yield [["bucket", "narrow/" + dt], ["kind", "narrow"], ["dtype", dt], ["nd", nd],
+                   ["freq", [rng.choice([0, 1, 7, top, top // 2]) for _ in range(nb)]], ["under", rng.choice([0, 1, 5])], ["over", rng.choice([0, 2])]]
+            continue
         if r < 0.07:
             s = gen_spec(rng, f128=True)
             yield [["bucket", "hist/float128"], ["kind", "hist"], ["how", "direct"], ["spec", spec_sx(s)]]
@@ -444,6 +452,21 @@ def impl(case):
             finally:
                 os.unlink(path)
             return out
+        if d["kind"] == "narrow":
+            from physt.histogram1d import Histogram1D
+            from physt.histogram_nd import Histogram2D
+            dt = np.dtype(d["dtype"]); f = np.array(d["freq"], dtype=dt)
+            if d["nd"] == 1: h = Histogram1D(list(range(len(f) + 1)), f, dtype=dt, underflow=d["under"], overflow=d["over"])
+            else: h = Histogram2D([list(range(len(f) // 2 + 1)), [0, 1, 2]], f.reshape(-1, 2), dtype=dt, missed=d["under"])
+            try:
+                g = parse_json(h.to_json())
+                doc2 = json.loads(g.to_json())
+            except Exception as e:
+                return [["error", type(e).__name__]]
+            mis = (lambda x: [float(x.underflow), float(x.overflow)] if d["nd"] == 1 else [float(x.missed)])
+            return [["dtypes_after", [str(g.dtype), str(g.frequencies.dtype), str(g.errors2.dtype), str(doc2["dtype"])]],
+                    ["freq_after", [int(x) for x in g.frequencies.ravel()]], ["err2_after", [int(x) for x in g.errors2.ravel()]],
+                    ["missed_before", mis(h)], ["missed_after", mis(g)]]
         if d["kind"] == "doc":
             doc = uncanon(d["doc"])
             # arrays are written as nested lists again
@@ -495,6 +518,7 @@ def corr_view(case, obs):
         if "after" not in o: return "?"
         a = o["after"]
         return [[sx.rec(m)["m"] for m in a[0]], a[1], a[2], a[3]]
+    if d["kind"] == "narrow": return "narrow"      # no model run for dtypes outside the enumeration: the judge decides alone
     return obs
 
 def classify(case, obs, model, verdict, corr, detail=""):
